@@ -68,10 +68,15 @@ Theorem C19_to_annotation_uses_generated_labels_in_order : forall eps t u m g, w
     a_uri r = u /\ a_modality r = m.
 Proof. exact to_annotation_spec. Qed.
 
+Theorem C19_to_annotation_refused_iff_names_run_out : forall eps t u m l, wf eps t -> NoDup l ->
+  (to_annotation eps t u m (GList l) = None <-> (List.length l < List.length t)%nat).
+Proof. exact to_annotation_refused_iff. Qed.
+
 Example C19_nonvacuous :
   strgen_take 5 ["A"; "C"]%string = ["B"; "D"; "E"; "F"; "G"]%string /\
   word 26 = "AA"%string /\ word 701 = "ZZ"%string /\ word 702 = "AAA"%string /\
-  first_free 3 "T" 0 [NStr "T0"; NStr "x"; NStr "T1"] = NStr "T2".
+  first_free 3 "T" 0 [NStr "T0"; NStr "x"; NStr "T1"] = NStr "T2" /\
+  to_annotation 0 [(0, 1); (2, 3)] None None (GList [NStr "only"]) = None.
 Proof. vm_compute. repeat split. Qed.
 
 Print Assumptions C19_int_generator.
@@ -88,3 +93,4 @@ Print Assumptions C19_subsegment_min_duration.
 Print Assumptions C19_words_are_bijective_base_26.
 Print Assumptions C19_words_never_collide.
 Print Assumptions C19_to_annotation_uses_generated_labels_in_order.
+Print Assumptions C19_to_annotation_refused_iff_names_run_out.
